@@ -6,7 +6,8 @@
 set -u
 m=$(realpath "$1"); tier=$2; shift 2
 wt=/tmp/seedrun.$$; out=/tmp/seedout.$$
-git -C /repo worktree add -q --detach $wt HEAD || exit 2
+for try in 1 2 3 4 5; do git -C /repo worktree add -q --detach $wt HEAD 2>/dev/null && break; sleep $try; done
+[ -d $wt ] || { echo "could not create worktree"; exit 2; }
 trap 'git -C /repo worktree remove --force $wt; rm -rf $out' EXIT
 git -C $wt apply $m/patch.diff || { echo "patch does not apply"; exit 2; }
 for id in "$@"; do
